@@ -53,9 +53,13 @@ func exec(caseStr string) (obs string) {
 	})
 }
 
+var secondsByKind = map[string]float64{}
+
 func emit(out *vc.Out, key, caseStr string) {
+	t0 := time.Now()
 	obs := exec(caseStr)
 	kind := strings.Fields(caseStr)[0]
+	secondsByKind[kind] += time.Since(t0).Seconds()
 	out.Count(kind)
 	line := caseStr
 	if key != "" {
@@ -116,13 +120,17 @@ func gen(out *vc.Out, r *vc.Rand, thorough bool) {
 	ms := func() string { return fmt.Sprintf("ms %d", r.Intn(1<<30)) }
 
 	// disp: all (N, H, mask) of a small scope, many repetitions each
-	for _, n := range []int{1, 2, 3, 8, 16} {
+	ns := []int{1, 2, 3, 8}
+	if thorough {
+		ns = append(ns, 16)
+	}
+	for _, n := range ns {
 		for h := 0; h <= 3; h++ {
 			for mask := 0; mask < 1<<h; mask++ {
 				if !thorough && h == 3 && mask%3 != 0 {
 					continue
 				}
-				emit(out, "", fmt.Sprintf("disp n %d h %d errs %d rep %d %s", n, h, mask, 40*mul, ms()))
+				emit(out, "", fmt.Sprintf("disp n %d h %d errs %d rep %d %s", n, h, mask, 150*mul, ms()))
 			}
 		}
 	}
@@ -134,7 +142,7 @@ func gen(out *vc.Out, r *vc.Rand, thorough bool) {
 				if !thorough && r.Intn(3) != 0 {
 					continue
 				}
-				emit(out, "", fmt.Sprintf("tun init %d role %d tgt %d cl 2 %s %s rep %d %s", init, r.Intn(2), r.Intn(2), a, b, 60*mul, ms()))
+				emit(out, "", fmt.Sprintf("tun init %d role %d tgt %d cl 2 %s %s rep %d %s", init, r.Intn(2), r.Intn(2), a, b, 150*mul, ms()))
 			}
 		}
 	}
@@ -152,7 +160,7 @@ func gen(out *vc.Out, r *vc.Rand, thorough bool) {
 		if init == 1 && r.Intn(2) == 0 {
 			cl[r.Intn(n)] = "e"
 		}
-		emit(out, "", fmt.Sprintf("tun init %d role %d tgt %d cl %d %s rep %d %s", init, r.Intn(2), 1, n, strings.Join(cl, " "), 150*mul, ms()))
+		emit(out, "", fmt.Sprintf("tun init %d role %d tgt %d cl %d %s rep %d %s", init, r.Intn(2), 1, n, strings.Join(cl, " "), 300*mul, ms()))
 	}
 	// single closers: each completion path alone
 	for _, c := range append(append([]string{}, tunClosers...), "e") {
@@ -240,5 +248,5 @@ func main() {
 	if !*noGen {
 		gen(out, vc.NewRand(*seed), *tier == "thorough")
 	}
-	out.Finish(*stats, nil)
+	out.Finish(*stats, map[string]any{"seconds_by_kind": secondsByKind})
 }
